@@ -1657,8 +1657,9 @@ func (t *Tokenizer) readPunctuation() (models.Token, error) {
 				contentStart := t.pos.Index
 				for t.pos.Index < len(t.input) {
 					if t.input[t.pos.Index] == '$' && t.pos.Index+len(closingTag) <= len(t.input) {
-						candidate := string(t.input[t.pos.Index : t.pos.Index+len(closingTag)])
-						if candidate == closingTag {
+						// compared in place: a copy of tag length per '$' in the content makes
+						// a long tag with many dollar signs in the body quadratic
+						if string(t.input[t.pos.Index:t.pos.Index+len(closingTag)]) == closingTag {
 							content := string(t.input[contentStart:t.pos.Index])
 							// Advance past the closing tag
 							for i := 0; i < len(closingTag); {
@@ -1794,8 +1795,13 @@ func isIdentifierChar(r rune) bool {
 func (t *Tokenizer) hasCodeBeforeOnLine(idx int) bool {
 	// Find the start of the line containing idx
 	_, lineStart := t.lineContaining(idx)
-	// Check for non-whitespace between lineStart and idx
-	for i := lineStart; i < idx && i < len(t.input); i++ {
+	// Check for non-whitespace between lineStart and idx. Scanning backwards stops
+	// at the nearest non-blank byte, so a line holding many comments after a long
+	// blank prefix is not re-read from its start for every one of them.
+	if idx > len(t.input) {
+		idx = len(t.input)
+	}
+	for i := idx - 1; i >= lineStart; i-- {
 		if t.input[i] != ' ' && t.input[i] != '\t' && t.input[i] != '\r' {
 			return true
 		}
